@@ -6,6 +6,7 @@ from datetime import datetime
 
 from .. import core, grammar as G, qa
 from .c15 import corpus_texts
+from . import common
 
 LEVEL = "model_checking"
 PROBES = ["", " ", "  ", "a", "8", "8 ", " 8", "am", "at", "1", "12", "2020", "mon", "monday 8pm", "8:30", "8.30", "5.", "1st", "-", "/",
@@ -94,6 +95,7 @@ def run(ctx):
     ctx.assumptions += ["'can fire' = the production returned a value at least once on the bundled corpus, the hazard texts or random lexeme sequences",
                         "the frozen RuleTable.tla is the reference for which rule reads which pattern identifier (the shipped model's features)"]
     ctx.mc("Derive", "MC_Derive_pod_%s.cfg" % ("q" if ctx.quick else "t"), timeout=3000, heap="8g", coverage=False)
+    common.random_rows_stage(ctx, "C19")
     texts = [(t, ts) for t, ts in corpus_texts()]
     texts += [(t, (2018, 3, 7, 12, 43)) for t in ["3 days 15.11.2018 - 18.11.2018", "15.11.2018 - 16.11.2018 für 1 nacht", "15.11.2018 - 16.11.2018 1 nacht",
                                                    "von 9 bis 17 uhr", "between 9:00 and 17:00", "5th of march", "the 5th"]]
